@@ -25,6 +25,11 @@ class BaseType(object):
         self.default = value
 
     def get_default(self):
+        if isinstance(self.default, list):
+            # A new list for every decoded value: the caller owns
+            # what decode returns.
+            return list(self.default)
+
         return self.default
 
     def has_default(self):
